@@ -302,7 +302,11 @@ class BaseClient:
         return result.event
 
     def trigger_event(self, event: events.BaseEvent):
-        for callback in self.callbacks:
+        # callbacks may unregister themselves (or others) while the event is
+        # dispatched: walk a snapshot, skip what has been removed meanwhile
+        for callback in list(self.callbacks):
+            if callback not in self.callbacks:
+                continue
             if callback.accepts_event(event):
                 try:
                     if asyncio.iscoroutinefunction(callback.callback):
